@@ -215,13 +215,21 @@ pub struct Sweep {
     pub trailing_reopens: usize,
     /// operations executed (unchecked) before the word: start from a non-initial state
     pub preload: Vec<Op>,
+    /// explicit word list (structured long histories); when non-empty it replaces alphabet^depth
+    pub words: Vec<Vec<Op>>,
 }
 
 impl Sweep {
     pub fn nwords(&self) -> u64 {
+        if !self.words.is_empty() {
+            return self.words.len() as u64;
+        }
         (self.alphabet.len() as u64).pow(self.depth as u32)
     }
     pub fn word(&self, mut idx: u64) -> Vec<Op> {
+        if !self.words.is_empty() {
+            return self.words[idx as usize].clone();
+        }
         let a = self.alphabet.len() as u64;
         let mut w = vec![Op::Merge; self.depth];
         for i in (0..self.depth).rev() {
@@ -662,6 +670,13 @@ fn run_word_here(prop: &str, cfg: Cfg, word: &[Op], keys: &[u8], o: Oracles, tra
         // pre-merge observations
         let mut pre_sizes = 0u64;
         let mut selected: Vec<u64> = vec![];
+        // long structured histories are observed in full at merges, reopens, every 16th step and at
+        // the end; in between only the return value and the key just touched are checked
+        let long = word.len() > 40;
+        let observe = !long || matches!(op, Op::Merge | Op::Reopen | Op::ReopenAs(_)) || i % 16 == 15 || i + 1 == word.len();
+        if long && *op == Op::Merge {
+            before = list_dir(dir);
+        }
         if *op == Op::Merge {
             pre_sizes = data_files(&before).values().map(|b| b.len() as u64).sum();
             if let Ok(Ok(ids)) = catch(|| e.h().verif_fileids_to_merge()) {
@@ -688,7 +703,20 @@ fn run_word_here(prop: &str, cfg: Cfg, word: &[Op], keys: &[u8], o: Oracles, tra
                 break 'steps;
             }
         }
-        outcome.push(got.replace("Ok(Ok(", "").replace("))", ""));
+        if !long {
+            outcome.push(got.replace("Ok(Ok(", "").replace("))", ""));
+        }
+        if !observe {
+            if let Op::Set(k, _) | Op::Del(k) = op {
+                if o.kv {
+                    check_reads(&e, &[*k], prop, &mut viol, i);
+                }
+            }
+            if !viol.is_empty() && viol.len() > 6 {
+                break 'steps;
+            }
+            continue;
+        }
         let files = list_dir(dir);
         let dump = match catch(|| e.h().verif_dump()) {
             Ok(d) => d,
@@ -952,10 +980,93 @@ pub fn plan(prop: &str, tier: Tier, seeds: &[u64]) -> Vec<Sweep> {
     rest.retain(|c| !hot.contains(c));
     let mut sweeps = vec![];
     let mut deep = |name: &str, alphabet: Vec<Op>, dq: usize, dt: usize, cfgs: Vec<Cfg>, oracles: Oracles, trailing: usize| {
-        sweeps.push(Sweep { name: format!("{}-depth{}", name, dq), alphabet: alphabet.clone(), depth: dq, cfgs: cfgs.clone(), oracles, keys: main_keys.clone(), trailing_reopens: trailing, preload: vec![] });
+        sweeps.push(Sweep { name: format!("{}-depth{}", name, dq), alphabet: alphabet.clone(), depth: dq, cfgs: cfgs.clone(), oracles, keys: main_keys.clone(), trailing_reopens: trailing, preload: vec![], words: vec![] });
         if tier == Tier::Thorough && dt > dq {
-            sweeps.push(Sweep { name: format!("{}-depth{}", name, dt), alphabet, depth: dt, cfgs, oracles, keys: main_keys.clone(), trailing_reopens: trailing, preload: vec![] });
+            sweeps.push(Sweep { name: format!("{}-depth{}", name, dt), alphabet, depth: dt, cfgs, oracles, keys: main_keys.clone(), trailing_reopens: trailing, preload: vec![], words: vec![] });
         }
+    };
+    // SCALE: structured long histories over MANY keys (the exhaustive words have two). Families:
+    // n distinct keys are set; every p-th is overwritten; every q-th is deleted; merges and reopens
+    // between the phases; optionally every 5th value is 9000 bytes; optionally one key is
+    // overwritten m times. Not sampled: every combination of the listed parameters.
+    let scale_words = |ns: &[usize]| -> Vec<Vec<Op>> {
+        let key = |i: usize| (20 + i) as u8; // key_bytes(20..) = two-byte keys 'k' + byte
+        let mut out = vec![];
+        for &n in ns {
+            for big in [false, true] {
+                for p in [0usize, 1, 2, 3] {
+                    for q in [0usize, 2, 3] {
+                        for mid_merge in [false, true] {
+                            let mut w = vec![];
+                            for i in 0..n {
+                                w.push(Op::Set(key(i), if big && i % 5 == 4 { 4 } else { 0 }));
+                            }
+                            if mid_merge {
+                                w.push(Op::Merge);
+                            }
+                            if p > 0 {
+                                for i in (0..n).filter(|i| i % p == 0) {
+                                    w.push(Op::Set(key(i), 1));
+                                }
+                            }
+                            if q > 0 {
+                                for i in (0..n).filter(|i| i % q == 1) {
+                                    w.push(Op::Del(key(i)));
+                                }
+                            }
+                            w.push(Op::Merge);
+                            w.push(Op::Reopen);
+                            if q > 0 {
+                                // delete again (now absent), re-set a few
+                                for i in (0..n).filter(|i| i % q == 1).take(3) {
+                                    w.push(Op::Del(key(i)));
+                                    w.push(Op::Set(key(i), 6));
+                                }
+                            }
+                            w.push(Op::Merge);
+                            w.push(Op::Reopen);
+                            w.push(Op::Reopen);
+                            w.push(Op::Merge);
+                            out.push(w);
+                        }
+                    }
+                }
+            }
+        }
+        // one key overwritten m times, among a few others
+        for m in [9usize, 10, 11, 99, 100, 101, 300] {
+            for tail in [vec![Op::Merge], vec![Op::Reopen, Op::Merge], vec![Op::Merge, Op::Reopen, Op::Merge]] {
+                let mut w = vec![Op::Set(key(0), 0), Op::Set(key(1), 0)];
+                for j in 0..m {
+                    w.push(Op::Set(key(0), if j % 2 == 0 { 1 } else { 0 }));
+                }
+                w.push(Op::Del(key(1)));
+                w.extend(tail.clone());
+                w.push(Op::Set(key(2), 0));
+                w.push(Op::Merge);
+                w.push(Op::Reopen);
+                out.push(w);
+            }
+        }
+        out
+    };
+    let scale = |sweeps: &mut Vec<Sweep>, oracles: Oracles| {
+        let ns: Vec<usize> = if tier == Tier::Quick { vec![3, 10, 11, 33, 100] } else { vec![3, 4, 9, 10, 11, 16, 17, 32, 33, 64, 65, 100, 129, 200] };
+        let words = scale_words(&ns);
+        let nmax = *ns.iter().max().unwrap();
+        let keys: Vec<u8> = (0..nmax).map(|i| (20 + i) as u8).chain([NEVER_KEY]).collect();
+        let mut cfgs = vec![];
+        for mfs in [0u64, 60, 1000, MFS_BIG] {
+            for thr in [Thr::All, Thr::Dead, Thr::Frag, Thr::Size100] {
+                for (cache, conc) in [(1usize, 1usize), (0, 2), (4, 2)] {
+                    if tier == Tier::Quick && !((cache, conc) == (4, 2) || (mfs == 0 && thr == Thr::All)) {
+                        continue;
+                    }
+                    cfgs.push(Cfg { mfs, thr, cache, conc, seed: seeds[0], sync_always: false, clock: 0 });
+                }
+            }
+        }
+        sweeps.push(Sweep { name: "scale".into(), alphabet: vec![], depth: 0, cfgs, oracles, keys, trailing_reopens: 0, preload: vec![], words });
     };
     // Non-initial states: the store is first filled and fully merged under ALL thresholds (its data
     // now sits in hinted merge outputs), then re-opened with the thresholds under test. Two merges
@@ -970,7 +1081,7 @@ pub fn plan(prop: &str, tier: Tier, seeds: &[u64]) -> Vec<Sweep> {
             for thr in [Thr::Dead, Thr::Size27, Thr::Size100, Thr::Frag, Thr::None] {
                 let mut preload = pre.clone();
                 preload.push(Op::ReopenAs(thr));
-                sweeps.push(Sweep { name: format!("after-merge[{}]->{}-depth{}", pn, thr.name(), depth), alphabet: full.clone(), depth, cfgs: core_grid(&seeds[..1], &[Thr::All], &[0, MFS_BIG]), oracles, keys: main_keys.clone(), trailing_reopens: 0, preload });
+                sweeps.push(Sweep { name: format!("after-merge[{}]->{}-depth{}", pn, thr.name(), depth), alphabet: full.clone(), depth, cfgs: core_grid(&seeds[..1], &[Thr::All], &[0, MFS_BIG]), oracles, keys: main_keys.clone(), trailing_reopens: 0, preload, words: vec![] });
             }
         }
     };
@@ -982,28 +1093,30 @@ pub fn plan(prop: &str, tier: Tier, seeds: &[u64]) -> Vec<Sweep> {
         "C01" => {
             let alpha = vec![SET_A1, SET_A22, SET_B1, SET_BBIG, DEL_A, DEL_B, Op::Merge];
             deep("core", alpha.clone(), 5, 7, core_grid(seeds, &all_thr, &mfss), kv, 0);
-            sweeps.push(Sweep { name: "cache-conc".into(), alphabet: alpha, depth: tier.pick(4, 5), cfgs: cache_conc_grid(seeds[0], Thr::All), oracles: kv, keys: main_keys.clone(), trailing_reopens: 0, preload: vec![] });
-            sweeps.push(Sweep { name: "wide".into(), alphabet: wide_ops(true, false), depth: tier.pick(2, 3), cfgs: core_grid(&seeds[..1], &[Thr::All, Thr::Dead], &[0, 60, MFS_BIG]), oracles: kv, keys: wide_keys.clone(), trailing_reopens: 0, preload: vec![] });
+            sweeps.push(Sweep { name: "cache-conc".into(), alphabet: alpha, depth: tier.pick(4, 5), cfgs: cache_conc_grid(seeds[0], Thr::All), oracles: kv, keys: main_keys.clone(), trailing_reopens: 0, preload: vec![], words: vec![] });
+            sweeps.push(Sweep { name: "wide".into(), alphabet: wide_ops(true, false), depth: tier.pick(2, 3), cfgs: core_grid(&seeds[..1], &[Thr::All, Thr::Dead], &[0, 60, MFS_BIG]), oracles: kv, keys: wide_keys.clone(), trailing_reopens: 0, preload: vec![], words: vec![] });
             // the reads after every step warm the reader's file cache, and a warm reader keeps
             // answering from a file that a merge has removed: the same sweep with NO reader cache
             // (every read opens its file) and two pooled readers
             let cold: Vec<Cfg> = core_grid(&seeds[..1], &[Thr::All, Thr::Dead], &[0, 60, MFS_BIG]).into_iter().map(|c| Cfg { cache: 0, conc: 2, ..c }).collect();
-            sweeps.push(Sweep { name: "wide-cold-readers".into(), alphabet: wide_ops(true, false), depth: tier.pick(2, 3), cfgs: cold, oracles: kv, keys: wide_keys.clone(), trailing_reopens: 0, preload: vec![] });
-            sweeps.push(Sweep { name: "clock".into(), alphabet: vec![SET_A1, SET_A22, SET_B1, SET_BBIG, DEL_A, DEL_B, Op::Merge], depth: tier.pick(4, 5), cfgs: with_clocks(core_grid(&seeds[..1], &[Thr::All, Thr::Dead], &[0, MFS_BIG])), oracles: kv, keys: main_keys.clone(), trailing_reopens: 0, preload: vec![] });
+            sweeps.push(Sweep { name: "wide-cold-readers".into(), alphabet: wide_ops(true, false), depth: tier.pick(2, 3), cfgs: cold, oracles: kv, keys: wide_keys.clone(), trailing_reopens: 0, preload: vec![], words: vec![] });
+            scale(&mut sweeps, kv);
+            sweeps.push(Sweep { name: "clock".into(), alphabet: vec![SET_A1, SET_A22, SET_B1, SET_BBIG, DEL_A, DEL_B, Op::Merge], depth: tier.pick(4, 5), cfgs: with_clocks(core_grid(&seeds[..1], &[Thr::All, Thr::Dead], &[0, MFS_BIG])), oracles: kv, keys: main_keys.clone(), trailing_reopens: 0, preload: vec![], words: vec![] });
         }
         "C02" => {
             let alpha = vec![SET_A1, SET_A22, SET_B1, DEL_A, DEL_B, Op::Reopen];
             let o = Oracles { kv: true, reopen_stable: true, ..Default::default() };
             deep("core", alpha, 5, 7, core_grid(&seeds[..1], &[Thr::None], &mfss), o, 3);
-            sweeps.push(Sweep { name: "wide".into(), alphabet: wide_ops(false, true), depth: tier.pick(2, 3), cfgs: core_grid(&seeds[..1], &[Thr::None], &[0, 60, MFS_BIG]), oracles: o, keys: wide_keys.clone(), trailing_reopens: 2, preload: vec![] });
+            sweeps.push(Sweep { name: "wide".into(), alphabet: wide_ops(false, true), depth: tier.pick(2, 3), cfgs: core_grid(&seeds[..1], &[Thr::None], &[0, 60, MFS_BIG]), oracles: o, keys: wide_keys.clone(), trailing_reopens: 2, preload: vec![], words: vec![] });
             // > 10 files: ids must be ordered numerically, not lexicographically
-            sweeps.push(Sweep { name: "many-files".into(), alphabet: vec![SET_A1, SET_A22, DEL_A, Op::Reopen], depth: tier.pick(7, 9), cfgs: core_grid(&seeds[..1], &[Thr::None], &[0]), oracles: o, keys: main_keys.clone(), trailing_reopens: 2, preload: vec![] });
+            sweeps.push(Sweep { name: "many-files".into(), alphabet: vec![SET_A1, SET_A22, DEL_A, Op::Reopen], depth: tier.pick(7, 9), cfgs: core_grid(&seeds[..1], &[Thr::None], &[0]), oracles: o, keys: main_keys.clone(), trailing_reopens: 2, preload: vec![], words: vec![] });
             // the same from a non-initial state: 8 earlier incarnations have left ids 0..7 behind, so
             // the words' entries land in files 8, 9, 10, 11, ... (across the 9 / 10 boundary)
-            sweeps.push(Sweep { name: "many-files-from-id-8".into(), alphabet: vec![SET_A1, SET_A22, SET_B1, DEL_A, DEL_B, Op::Reopen], depth: tier.pick(5, 6), cfgs: core_grid(&seeds[..1], &[Thr::None], &[0]), oracles: o, keys: main_keys.clone(), trailing_reopens: 2, preload: vec![Op::Reopen; 8] });
+            sweeps.push(Sweep { name: "many-files-from-id-8".into(), alphabet: vec![SET_A1, SET_A22, SET_B1, DEL_A, DEL_B, Op::Reopen], depth: tier.pick(5, 6), cfgs: core_grid(&seeds[..1], &[Thr::None], &[0]), oracles: o, keys: main_keys.clone(), trailing_reopens: 2, preload: vec![Op::Reopen; 8], words: vec![] });
+            scale(&mut sweeps, o);
             // histories whose data files include merge outputs (and their hint files)
-            sweeps.push(Sweep { name: "with-merges".into(), alphabet: vec![SET_A1, SET_A22, SET_B1, DEL_A, Op::Merge, Op::Reopen], depth: tier.pick(5, 6), cfgs: core_grid(&seeds[..1], &[Thr::All, Thr::Dead, Thr::Size27], &[0, 60]), oracles: o, keys: main_keys.clone(), trailing_reopens: 2, preload: vec![] });
-            sweeps.push(Sweep { name: "clock".into(), alphabet: vec![SET_A1, SET_A22, SET_B1, DEL_A, DEL_B, Op::Reopen], depth: tier.pick(4, 6), cfgs: with_clocks(core_grid(&seeds[..1], &[Thr::None], &mfss)), oracles: o, keys: main_keys.clone(), trailing_reopens: 2, preload: vec![] });
+            sweeps.push(Sweep { name: "with-merges".into(), alphabet: vec![SET_A1, SET_A22, SET_B1, DEL_A, Op::Merge, Op::Reopen], depth: tier.pick(5, 6), cfgs: core_grid(&seeds[..1], &[Thr::All, Thr::Dead, Thr::Size27], &[0, 60]), oracles: o, keys: main_keys.clone(), trailing_reopens: 2, preload: vec![], words: vec![] });
+            sweeps.push(Sweep { name: "clock".into(), alphabet: vec![SET_A1, SET_A22, SET_B1, DEL_A, DEL_B, Op::Reopen], depth: tier.pick(4, 6), cfgs: with_clocks(core_grid(&seeds[..1], &[Thr::None], &mfss)), oracles: o, keys: main_keys.clone(), trailing_reopens: 2, preload: vec![], words: vec![] });
         }
         "C05" => {
             if tier == Tier::Quick {
@@ -1012,20 +1125,22 @@ pub fn plan(prop: &str, tier: Tier, seeds: &[u64]) -> Vec<Sweep> {
             } else {
                 deep("core", full.clone(), 5, 6, core_grid(seeds, &all_thr, &mfss), kv, 0);
             }
-            sweeps.push(Sweep { name: "cache-conc".into(), alphabet: full.clone(), depth: 4, cfgs: cache_conc_grid(seeds[0], Thr::Size27), oracles: kv, keys: main_keys.clone(), trailing_reopens: 0, preload: vec![] });
+            sweeps.push(Sweep { name: "cache-conc".into(), alphabet: full.clone(), depth: 4, cfgs: cache_conc_grid(seeds[0], Thr::Size27), oracles: kv, keys: main_keys.clone(), trailing_reopens: 0, preload: vec![], words: vec![] });
             after_merge(&mut sweeps, tier.pick(4, 5), kv);
-            sweeps.push(Sweep { name: "clock".into(), alphabet: full.clone(), depth: tier.pick(4, 5), cfgs: with_clocks(core_grid(&seeds[..1], &[Thr::All, Thr::Dead, Thr::Size27], &[0, MFS_BIG])), oracles: kv, keys: main_keys.clone(), trailing_reopens: 0, preload: vec![] });
-            sweeps.push(Sweep { name: "wide".into(), alphabet: wide_ops(true, true), depth: tier.pick(2, 3), cfgs: core_grid(&seeds[..1], &[Thr::All, Thr::Size27], &[0, 60]), oracles: kv, keys: wide_keys.clone(), trailing_reopens: 0, preload: vec![] });
+            scale(&mut sweeps, kv);
+            sweeps.push(Sweep { name: "clock".into(), alphabet: full.clone(), depth: tier.pick(4, 5), cfgs: with_clocks(core_grid(&seeds[..1], &[Thr::All, Thr::Dead, Thr::Size27], &[0, MFS_BIG])), oracles: kv, keys: main_keys.clone(), trailing_reopens: 0, preload: vec![], words: vec![] });
+            sweeps.push(Sweep { name: "wide".into(), alphabet: wide_ops(true, true), depth: tier.pick(2, 3), cfgs: core_grid(&seeds[..1], &[Thr::All, Thr::Size27], &[0, 60]), oracles: kv, keys: wide_keys.clone(), trailing_reopens: 0, preload: vec![], words: vec![] });
             let cold: Vec<Cfg> = core_grid(&seeds[..1], &[Thr::All, Thr::Size27], &[0, 60]).into_iter().map(|c| Cfg { cache: 0, conc: 2, ..c }).collect();
-            sweeps.push(Sweep { name: "wide-cold-readers".into(), alphabet: wide_ops(true, true), depth: tier.pick(2, 3), cfgs: cold, oracles: kv, keys: wide_keys.clone(), trailing_reopens: 0, preload: vec![] });
+            sweeps.push(Sweep { name: "wide-cold-readers".into(), alphabet: wide_ops(true, true), depth: tier.pick(2, 3), cfgs: cold, oracles: kv, keys: wide_keys.clone(), trailing_reopens: 0, preload: vec![], words: vec![] });
         }
         "C12" => {
             let o = Oracles { c12: true, ..Default::default() };
             deep("core", full.clone(), 4, 5, core_grid(seeds, &all_thr, &mfss), o, 0);
             after_merge(&mut sweeps, tier.pick(3, 4), o);
-            sweeps.push(Sweep { name: "clock".into(), alphabet: full.clone(), depth: tier.pick(3, 4), cfgs: with_clocks(core_grid(&seeds[..1], &[Thr::All, Thr::Dead, Thr::Size27], &[0, MFS_BIG])), oracles: o, keys: main_keys.clone(), trailing_reopens: 0, preload: vec![] });
+            scale(&mut sweeps, o);
+            sweeps.push(Sweep { name: "clock".into(), alphabet: full.clone(), depth: tier.pick(3, 4), cfgs: with_clocks(core_grid(&seeds[..1], &[Thr::All, Thr::Dead, Thr::Size27], &[0, MFS_BIG])), oracles: o, keys: main_keys.clone(), trailing_reopens: 0, preload: vec![], words: vec![] });
             // key and value SHAPES (empty, binary, 300-byte keys; empty, CR/LF/NUL, 9 000- and 70 000-byte values) through a merge
-            sweeps.push(Sweep { name: "wide".into(), alphabet: wide_ops(true, false), depth: tier.pick(2, 3), cfgs: core_grid(&seeds[..1], &[Thr::All, Thr::Dead], &[0, MFS_BIG]), oracles: o, keys: wide_keys.clone(), trailing_reopens: 0, preload: vec![] });
+            sweeps.push(Sweep { name: "wide".into(), alphabet: wide_ops(true, false), depth: tier.pick(2, 3), cfgs: core_grid(&seeds[..1], &[Thr::All, Thr::Dead], &[0, MFS_BIG]), oracles: o, keys: wide_keys.clone(), trailing_reopens: 0, preload: vec![], words: vec![] });
         }
         "C13" => {
             let o = Oracles { c13: true, ..Default::default() };
@@ -1036,7 +1151,8 @@ pub fn plan(prop: &str, tier: Tier, seeds: &[u64]) -> Vec<Sweep> {
                 deep("core", full.clone(), 5, 6, core_grid(seeds, &all_thr, &mfss), o, 0);
             }
             after_merge(&mut sweeps, tier.pick(3, 5), o);
-            sweeps.push(Sweep { name: "wide".into(), alphabet: wide_ops(true, true), depth: tier.pick(2, 3), cfgs: core_grid(&seeds[..1], &[Thr::All, Thr::Dead], &[0, MFS_BIG]), oracles: o, keys: wide_keys.clone(), trailing_reopens: 0, preload: vec![] });
+            scale(&mut sweeps, o);
+            sweeps.push(Sweep { name: "wide".into(), alphabet: wide_ops(true, true), depth: tier.pick(2, 3), cfgs: core_grid(&seeds[..1], &[Thr::All, Thr::Dead], &[0, MFS_BIG]), oracles: o, keys: wide_keys.clone(), trailing_reopens: 0, preload: vec![], words: vec![] });
         }
         "C14" => {
             let o = Oracles { c14: true, reopen_stable: true, ..Default::default() };
@@ -1051,7 +1167,8 @@ pub fn plan(prop: &str, tier: Tier, seeds: &[u64]) -> Vec<Sweep> {
                 deep("core", full.clone(), 5, 6, core_grid(seeds, &all_thr, &mfss), o, 0);
             }
             after_merge(&mut sweeps, tier.pick(3, 5), o);
-            sweeps.push(Sweep { name: "wide".into(), alphabet: wide_ops(true, true), depth: tier.pick(2, 3), cfgs: core_grid(&seeds[..1], &[Thr::All, Thr::Dead], &[0, MFS_BIG]), oracles: o, keys: wide_keys.clone(), trailing_reopens: 0, preload: vec![] });
+            scale(&mut sweeps, o);
+            sweeps.push(Sweep { name: "wide".into(), alphabet: wide_ops(true, true), depth: tier.pick(2, 3), cfgs: core_grid(&seeds[..1], &[Thr::All, Thr::Dead], &[0, MFS_BIG]), oracles: o, keys: wide_keys.clone(), trailing_reopens: 0, preload: vec![], words: vec![] });
         }
         _ => panic!("no E1 plan for {}", prop),
     }
